@@ -277,6 +277,7 @@ ADD7 = {
     "C08": ("; who-may-remove audit over the reference graph; sibling agreement of the bookkeeping map keys; control dependence of the mark recursion on mark-set membership; directory-class agreement between os.CreateTemp sites and the sweep", " Also: only BlobDelete, ManifestDelete and the sweep remove files; every access to the GC bookkeeping builds its key the same way; the walk does not skip entries that are merely marked; every directory a temp file is made in is swept (found D27)."),
     "C09": ("; close-error typestate of the archive writers the export creates; must-fail reachability of the Docker name lookup", " Also: the error of finishing the tar stream and the compressed stream reaches the caller of the export (found D20); a Docker import whose name lookup finds nothing fails (found D26)."),
     "C10": ("; second-invalidation clause of the cache coherence rule (a cache delete/set dominated by the lock, deferred or behind every rewrite of the tag)", " Also: a referrer-aware delete drops the cached list again after the fallback tag was rewritten (found D25)."),
+    "C19": ("; option audit of the Lua state's creation (SkipOpenLibs, no os/io library opened)", " Also: the interpreter's own os / io functions are not available to scripts (violated on the unchanged tree: known finding D28)."),
     "C11": ("; backward slice from stores into secret fields (and from documents decoded into structs with secret fields) to the text they come from, met with the logger arguments", " Also: the string, map or response body a password or token is parsed out of does not reach the log (found D23)."),
     "C12": ("; argument-identity audit of self-recursive request functions; guard/derivation audit of stores to the per-host release time", " Also: no operation restarts itself by recursion with unchanged arguments; a host's release time is only replaced with a look at what it holds."),
     "C14": ("; origin audit of the index reader's returns; operand audit of ref.EqualRepository shared with C04.R16", " Also: the layout index is decoded by the call that returns it, never remembered; 'nothing to transfer' is decided on the references' own fields."),
